@@ -71,6 +71,16 @@ def model_check(pid, tier, known_devs, mc_runs):
             raise ToolError(f"vacuous model check: actions never taken {never}")
 
 
+def two_tables_reopen_insert(h):
+    """row-sets in two tables, a reopen, then more rows: ids of every kind are re-derived at boot from what survived"""
+    ev = [e for e in h if e["a"] != "obs"]
+    acts = [e["a"] for e in ev]
+    if "shutdown" not in acts:
+        return False
+    k = acts.index("shutdown")
+    return len({e["n"] for e in ev[:k] if e["a"] == "ins"}) >= 2 and any(e["a"] == "ins" for e in ev[k:])
+
+
 def score(h):
     """Prefer histories that chain the mechanisms: deletes before compaction, compaction before
     drop / reopen, several reopens."""
@@ -124,6 +134,10 @@ def generate(pid, tier, seed, known_devs, stmts, boots, views, nmax, names=("a",
         refused = [h for h in rest if any(e["a"] == "dtx" for e in h)][: max(2, nmax // 10)]
         hot += refused
         rest = [h for h in rest if not any(h is x for x in refused)]
+        # ... and for histories that write two tables, reopen and write again
+        two = [h for h in rest if two_tables_reopen_insert(h)][: max(2, nmax // 8)]
+        hot += two
+        rest = [h for h in rest if not any(h is x for x in two)]
         rest.sort(key=lambda h: -score(h))
         head = rest[: nmax // 2]
         tail = rest[nmax // 2:]
